@@ -292,6 +292,61 @@ def run_tree_builder(tier):
     return kani_run.run_many(d, names, ('-Z', 'stubbing'), 3000, jobs=len(names)), pairs
 
 
+def classified_failures(text, linemap, unit, res):
+    """every failed obligation of the unit with its function, id and property classes"""
+    # C20's invariant (errs_ok: every recorded error points at a token or at the end of the text) rides inside the frame
+    # `ext`.  To attribute a failed frame clause, the unit is verified once more with that invariant switched off: what no
+    # longer fails is a C20 obligation, everything else keeps its class.  (Only when something failed.)
+    c20_only = set()
+    if res['failures']:
+        try:
+            off = os.path.join(os.path.dirname(unit), 'unit_no_c20.rs')
+            t2, n_sub = re.subn(r'spec fn errs_ok\(&self\) -> bool \{.*?\n    \}', 'spec fn errs_ok(&self) -> bool { true }', text, count=1, flags=re.S)
+            if n_sub == 1:
+                open(off, 'w').write(t2)
+                r2 = verus(off, multiple_errors=30)
+                still = set()
+                for f2 in r2['failures']:
+                    l2 = locate(linemap, f2['line'])
+                    still.add(obligation_id('parser', l2[0] if l2 else None, f2))
+                for f in res['failures']:
+                    l1 = locate(linemap, f['line'])
+                    fid = obligation_id('parser', l1[0] if l1 else None, f)
+                    if fid not in still:
+                        c20_only.add(fid)
+        except Undecided:
+            pass
+    out = []
+    for f in res['failures']:
+        loc = locate(linemap, f['line'])
+        fn = loc[0] if loc else None
+        f['fn'] = fn
+        f['id'] = obligation_id('parser', fn, f)
+        f['props'] = sorted(classify(f))
+        if fn in ('Parser::eof', 'Parser::nth', 'Parser::at', 'Parser::at_any', 'Parser::eat', 'Parser::expect'):
+            # the look-ahead / end-of-input primitives carry both properties: `module` consumes every token (C01)
+            # and every loop terminates (C02) only because these say what they say
+            f['props'] = ['C01', 'C02']
+        if f['id'] in c20_only or any(k in ' '.join([f['site']] + [c['text'] for c in f['clauses']]) for k in ('errs_ok', 'err_range_ok', 'eof_range', 'errors@')):
+            f['props'] = ['C20']
+        out.append(f)
+    return out
+
+
+def c20_part(outdir):
+    """the parser unit as seen by C20: -> dict(status, verified, errors, failures=[C20-class failures], ...)"""
+    try:
+        ex, fns, loops, text, linemap, info, unit, res = verify_with_inference(REPO, outdir)
+    except (AnchorLost, weave.SpecError, Undecided) as e:
+        return {'status': 'undecided', 'why': str(e)[:800]}
+    fs = [f for f in classified_failures(text, linemap, unit, res) if 'C20' in f['props']]
+    other = [f['id'][:200] for f in res['failures'] if f not in fs]
+    return {'status': 'failed' if fs else ('verified' if not res['failures'] else 'verified-for-C20 (other properties\' obligations fail)'),
+            'verified': res['verified'], 'errors': res['errors'], 'cmd': res['cmd'], 'smt_ms': res['smt_ms'],
+            'failures': [{'id': f['id'], 'fn': f['fn'], 'rendered': f['rendered'], 'where': repo_location(ex, linemap, f)[1]} for f in fs],
+            'failed_obligations_other_property': other, 'functions_under_contract': info['contracted']}
+
+
 def main(prop, tier):
     t0 = time.time()
     sd = scratch()
@@ -328,16 +383,7 @@ def main(prop, tier):
 
     # ---- failures of named obligations
     mine, others = [], []
-    for f in res['failures']:
-        loc = locate(linemap, f['line'])
-        fn = loc[0] if loc else None
-        f['fn'] = fn
-        f['id'] = obligation_id('parser', fn, f)
-        f['props'] = sorted(classify(f))
-        if fn in ('Parser::eof', 'Parser::nth', 'Parser::at', 'Parser::at_any', 'Parser::eat', 'Parser::expect'):
-            # the look-ahead / end-of-input primitives carry both properties: `module` consumes every token (C01)
-            # and every loop terminates (C02) only because these say what they say
-            f['props'] = ['C01', 'C02']
+    for f in classified_failures(text, linemap, unit, res):
         (mine if prop in f['props'] else others).append(f)
 
     # functions without an explicit contract that are involved in a failure: "needs contract", not "bug"
